@@ -80,6 +80,8 @@ void reset() {
     if (cache_p) { VH_UNPOISON(cache_p, cache_sz); std::free(cache_p); cache_p = nullptr; }
     if (!live) live = new std::map<void *, block>();
     if (!events) events = new std::vector<std::string>();
+    // blocks a case leaked were already reported through `live=<n>`; release them so that the next case starts clean
+    for (auto &kv : *live) std::free(kv.first);
     live->clear();
     events->clear();
     next_id = 0;
